@@ -214,3 +214,5 @@ _add("C14", "text", "The cumulus back-end (CumulusPolicyGenerator.generate_cumul
 _add("C14", "note", "Vendors huawei, arista (all clauses) and cumulus (error-before-emit, references defined; no ACL / nesting there).", replace="Vendors huawei and arista; cumulus (generate_cumulus_rpl) not bound.")
 _add("C01", "text", "The juniper profile (flat `set` / `delete` lines) is judged by Device.ExecAllFlat: the device segments a flat line with the rulebook (block headers are key-determined).")
 _add("C01", "note", "Block-structured vendors and juniper; nokia and routeros not covered.", replace="Block-structured vendors only.")
+_add("C20", "text", "History.tla models four per-process caches (rulebooks, compiled row regexps, compiled ACLs, the ordering rulebook an Orderer extends) with two kinds of protection each job relies on "
+     "(a key fine enough to tell jobs apart; operations working on private copies); five regression instances, one per protection switched off, must violate determinism or the cache frame condition.")
